@@ -138,6 +138,12 @@ pub fn c14(args: &Args, reg: &[TypeEntry], log: &mut Log) {
                 Err(err) => problems.push(json!({"role": "container-as", "kind": "unparseable-type", "detail": format!("{fi}: {err}")})),
             }
         }
+        if let (Some((a, _)), Some((b, _))) = (bodies.get("flat"), bodies.get("flat-of-container-as")) {
+            checks.insert("flat~flat-of-container-as".into(), equiv(&env, a, b));
+        } else if members.contains_key("flat-of-container-as") && bodies.contains_key("flat") {
+            // the declaration could not be produced at all (panic)
+            problems.push(json!({"role": "flat-of-container-as", "kind": "no-declaration", "detail": texts.get("flat-of-container-as").cloned().unwrap_or(Value::Null).to_string().chars().take(300).collect::<String>()}));
+        }
         if let (Some((a, _)), Some((b, _))) = (bodies.get("flat"), bodies.get("flat-boxed")) {
             checks.insert("flat~flat-boxed".into(), equiv(&env, a, b));
         }
